@@ -34,6 +34,17 @@ Qed.
 Lemma type_check_err_first neg cats cd d s e : type_check (length cats) d s = Err e -> apply_category_filters neg cats cd d s = Err e.
 Proof. unfold apply_category_filters. now intros ->. Qed.
 
+Lemma err_arrays_untouched neg cats cd d s e : apply_category_filters neg cats cd d s = Err e -> arrays_after neg cats cd d s = sc_list s.
+Proof. unfold arrays_after. now intros ->. Qed.
+
+Lemma shape_ok_iff n ws sc : shape_ok n ws sc = true <->
+  ncols (tag sc) = n /\ nrows (tag sc) = length ws /\ nrows (dep sc) = length ws /\ ncols (dep sc) = S (length ws).
+Proof.
+  unfold shape_ok. rewrite !andb_true_iff, !Nat.eqb_eq. split.
+  - intros [[H1 [H2 H3]] [H4 H5]]. repeat split; congruence.
+  - intros (H1 & H2 & H3 & H4). repeat split; congruence.
+Qed.
+
 Lemma apply_ok_checked neg cats cd d s r : apply_category_filters neg cats cd d s = Ok r ->
   exists docs scs, type_check (length cats) d s = Ok (docs, scs).
 Proof.
